@@ -190,7 +190,7 @@ def shards(tier, seed):
     if tier == "thorough":
         for pid in PATH_IDS:
             out.append({"kind": "pairs", "path": pid})
-            out.append({"kind": "rand", "path": pid, "n": 2500})
+            out.append({"kind": "rand", "path": pid, "n": 3600})
     else:
         out.append({"kind": "rand_all", "n": 600})
     return out
